@@ -1148,6 +1148,14 @@ class xfunc_quantile(xfunc):
                 # Propagate missing values.
                 return NaN
 
+            # Rows of weight 0 (negative weights were set to 0 above) carry no
+            # mass: exclude them, like SAS EXCLNPWGT, instead of dividing by
+            # their weight below.
+            positive = w > 0
+            if not positive.all():
+                a = a[positive]
+                w = w[positive]
+
             N = len(w)
             if N == 0:
                 return NaN
